@@ -603,7 +603,8 @@ func (hp *HTTPProxy) directDomains(fn ProxyFunc) ProxyFunc {
 	}
 
 	return func(req *http.Request) (*url.URL, error) {
-		if hp.config.DirectDomains.Match(req.URL.Hostname()) {
+		// Match the name as written by the client and the name the transport will connect to.
+		if h := req.URL.Hostname(); hp.config.DirectDomains.Match(h) || hp.config.DirectDomains.Match(asciiHostname(h)) {
 			return nil, nil
 		}
 		return fn(req)
